@@ -155,6 +155,7 @@ class AIOKafkaClient:
         self._conns = {}
         self._loop = loop
         self._sync_task = None
+        self._closed = False
 
         self._md_update_fut = None
         self._md_update_waiter = loop.create_future()
@@ -174,11 +175,15 @@ class AIOKafkaClient:
         return collect_hosts(self._bootstrap_servers)
 
     async def close(self):
+        self._closed = True
         if self._sync_task:
             self._sync_task.cancel()
             with contextlib.suppress(asyncio.CancelledError):
                 await self._sync_task
             self._sync_task = None
+        # Nobody will update the metadata any more, release those who wait
+        if self._md_update_fut is not None and not self._md_update_fut.done():
+            self._md_update_fut.set_result(False)
         # Be careful to wait for graceful closure of all connections, so we
         # process all pending buffers.
         futs = [
@@ -337,6 +342,10 @@ class AIOKafkaClient:
         Returns:
             True/False - metadata updated or not
         """
+        if self._closed:
+            fut = self._loop.create_future()
+            fut.set_result(False)
+            return fut
         if self._md_update_fut is None:
             # Wake up the `_md_synchronizer` task
             if not self._md_update_waiter.done():
